@@ -1087,7 +1087,7 @@ pub fn run_l2(scn: &C10Scenario, stats: &mut RunStats) -> Vec<Violation> {
                 pending_fault_pass = true;
                 pending_renotify = renotify.clone();
             }
-            Op::ConfigObject { .. } | Op::FailFastNext => {}
+            Op::ConfigObject { .. } | Op::FailFastNext | Op::GeneratorOverride { .. } => {}
             Op::TamperOutput { output, body, source } if started => {
                 // the output location is not watched: no event for the tampering itself
                 match body.as_ref().and_then(|b| b.bytes()) {
